@@ -309,6 +309,35 @@ func (w *world) block(p ver, chs []change) ver {
 			cur[n][k] = v
 		}
 	}
+	// A storage-like trie hangs off an account leaf: whenever one is written, the holder leaf (key 0 of the first main
+	// trie) is written in the same block, and the holder is not deleted while a storage-like trie is non-empty
+	// (NodeStore!Linked).
+	holder := w.c.Names[0]
+	storage := false
+	for _, n := range w.c.Names {
+		if !w.c.Main[n] && len(cur[n]) > 0 {
+			storage = true
+		}
+	}
+	var extra []change
+	for _, ch := range chs {
+		if !w.c.Main[ch.name] && ch.op == "set" {
+			storage = true
+			if len(extra) == 0 {
+				extra = append(extra, change{holder, 0, "set", ch.val})
+			}
+		}
+	}
+	if storage {
+		kept := chs[:0:0]
+		for _, ch := range chs {
+			if ch.name == holder && ch.ki == 0 && ch.op == "del" {
+				continue
+			}
+			kept = append(kept, ch)
+		}
+		chs = append(kept, extra...)
+	}
 	// Hash-skipped tries store short nodes standalone; when one block deletes a key (a full node collapses and absorbs
 	// a sibling short node) and afterwards inserts a new key that splits it again, the sibling is re-created although
 	// none of its keys was touched - whether that happens depends on the order of the two updates.  The design model
